@@ -70,6 +70,28 @@ TA gen_ta(Rng& r, const Pool& pool, const TAOpts& o) {
 TA derive_ta(Rng& r, const Pool& pool, const TA& a, int kind) {
 	TA b = a; std::set<long> ss = a.states(); std::vector<long> st(ss.begin(), ss.end());
 	if (st.empty()) st.push_back(0);
+	if (kind == 6) {
+		// Two disjoint copies of A united, then cross-linked and perturbed: the bigger automaton offers
+		// several nondeterministic ways to match every rule, some of which fail deep inside.  This is the
+		// shape on which coinductive hypotheses, antichain pruning and result caches of the inclusion
+		// algorithms actually matter (a refuted alternative must not leave conclusions behind).
+		if (ss.empty()) return b;
+		long off = *ss.rbegin() + 1; std::map<long, long> m; for (long q : ss) m[q] = q + off;
+		TA c2 = mdl::rename(a, m); b = mdl::unite(a, c2);
+		std::vector<Rule> rules(b.rules.begin(), b.rules.end());
+		int k = r.range(1, 3);
+		for (int i = 0; i < k && !rules.empty(); ++i) {
+			Rule x = rules[r.below(rules.size())];
+			switch (r.below(4)) {
+				case 0: if (!x.ch.empty()) { Rule y = x; size_t j = size_t(r.below(y.ch.size())); y.ch[j] = y.ch[j] >= off ? y.ch[j] - off : y.ch[j] + off; b.rules.insert(y); } break;     // extra rule crossing the copies
+				case 1: if (!x.ch.empty()) { b.rules.erase(x); size_t j = size_t(r.below(x.ch.size())); x.ch[j] = x.ch[j] >= off ? x.ch[j] - off : x.ch[j] + off; b.rules.insert(x); } break; // a rule redirected into the other copy
+				case 2: if (x.ch.empty()) { b.rules.erase(x); std::vector<mdl::Sym> nul; for (auto& y : pool) if (y.second == 0) nul.push_back(y); if (!nul.empty()) x.sym = r.pick(nul).first; b.rules.insert(x); } break;  // another leaf symbol in one copy
+				default: b.rules.erase(x); break;                                                                                                                   // a rule missing in one copy
+			}
+		}
+		if (r.chance(1, 2)) { std::set<long> f; for (long q : b.finals) if (q < off || r.chance(1, 2)) f.insert(q); b.finals = f; }
+		return b;
+	}
 	switch (kind % 6) {
 		case 0: break;                                     // same automaton
 		case 1: {                                          // superset: extra rules / finals
@@ -124,6 +146,18 @@ TA wide_pair_smaller(Rng& r, TA& bigger) {
 	return a;
 }
 
+void gen_incl_pair(Rng& r, const Pool& pool, int max_states, bool sparse, TA& A, TA& B) {
+	TAOpts o; o.max_states = max_states; o.sparse = sparse; if (r.chance(1, 2)) o.max_rules = 3 * max_states + 3;
+	A = gen_ta(r, pool, o);
+	uint64_t x = r.below(100);
+	if (x < 40) { B = derive_ta(r, pool, A, r.chance(1, 2) ? 2 : 3); if (r.chance(1, 3)) B = derive_ta(r, pool, B, r.chance(1, 2) ? 2 : 3); }     // near miss
+	else if (x < 52) B = derive_ta(r, pool, A, 1);                                                                                             // superset
+	else if (x < 68) { TAOpts o2 = o; o2.max_states = max_states > 4 ? 4 : max_states; if (max_states > 4) A = gen_ta(r, pool, o2); B = derive_ta(r, pool, A, 6); }   // two cross-linked copies
+	else if (x < 78) B = derive_ta(r, pool, A, int(r.below(6)));
+	else B = gen_ta(r, pool, o);
+	if (r.chance(1, 10)) std::swap(A, B);
+}
+
 FA gen_fa(Rng& r, const std::vector<std::string>& syms, int max_states, bool sparse) {
 	FA a; int n = r.chance(1, 30) ? 0 : r.range(1, max_states);
 	std::vector<long> st;
@@ -151,6 +185,27 @@ FA derive_fa(Rng& r, const std::vector<std::string>& syms, const FA& a, int kind
 		default: { std::vector<long> p(st); for (size_t i = p.size(); i > 1; --i) std::swap(p[i - 1], p[r.below(i)]); std::map<long, long> m; for (size_t i = 0; i < st.size(); ++i) m[st[i]] = p[i]; b = mdl::rename(a, m); break; }
 	}
 	return b;
+}
+
+void gen_fa_incl_pair(Rng& r, const std::vector<std::string>& sa, const std::vector<std::string>& sb, int max_states, FA& A, FA& B) {
+	uint64_t x = r.below(100);
+	if (x < 55) {
+		// dense bigger automaton first
+		int n = r.range(3, max_states); B = FA(); std::vector<long> st; for (int i = 0; i < n; ++i) st.push_back(i);
+		int m = r.range(2 * n, 4 * n);
+		for (int i = 0; i < m; ++i) { Edge e; e.src = r.pick(st); e.sym = r.pick(sb); e.dst = r.pick(st); B.edges.insert(e); }
+		int ns = r.range(1, 3); for (int i = 0; i < ns; ++i) B.starts.insert(r.pick(st));
+		for (long q : st) if (r.chance(1, 3)) B.finals.insert(q);
+		if (B.finals.empty()) B.finals.insert(r.pick(st));
+		// the smaller one: B itself perturbed once or twice (sub-automaton, extra edge, tweak), or a random small one over the same symbols
+		A = derive_fa(r, sa, B, 1 + int(r.below(3))); if (r.chance(1, 2)) A = derive_fa(r, sa, A, 1 + int(r.below(3)));
+		if (r.chance(1, 3)) { std::set<long> f; for (long q : A.finals) if (r.chance(2, 3)) f.insert(q); if (!f.empty()) A.finals = f; }
+		if (r.chance(1, 3)) A = derive_fa(r, sa, A, 4);
+	} else {
+		int n = r.chance(1, 5) ? max_states : r.range(1, 5);
+		A = gen_fa(r, sa, n, r.chance(1, 4));
+		B = r.chance(1, 2) ? derive_fa(r, sb, A, int(r.below(5))) : gen_fa(r, sb, n, r.chance(1, 4));
+	}
 }
 
 vsim::Env gen_env(Rng& r, bool allow_never) {
